@@ -13,8 +13,8 @@ import itertools
 import numpy as np
 
 from . import core
-from .core import (And, Not, Or, RaiseSig, SBool, SBV, SInt, SReal, SU64, Sym, Unsupported, ctx, implies,
-                   ite, smax, smin)
+from .core import (And, Not, Or, RaiseSig, SBool, SBV, SInt, SReal, SU64, Sym, Unsupported, ctx, implies)
+from .core import ite, smax, smin  # noqa: F401  (dyadic-aware versions)
 
 _ids = itertools.count()
 
@@ -30,7 +30,15 @@ def norm_slice(sl, n):
     """Python slice normalisation -> (start, step, length); step must be a concrete non-zero int"""
     st = 1 if sl.step is None else sl.step
     if isinstance(st, (SInt,)):
-        raise Unsupported("slice with symbolic step")
+        if sl.start is None and sl.stop is None:
+            c = ctx()
+            if c.interp.truth(st == 0):
+                raise RaiseSig(ValueError("slice step cannot be zero"))
+            if c.interp.truth(st < 0):
+                raise Unsupported("slice with symbolic negative step")
+            q, r = c.divmod(n, st)
+            return 0, st, ite(r == 0, q, q + 1)
+        raise Unsupported("slice with symbolic step and explicit bounds")
     if st == 0:
         raise RaiseSig(ValueError("slice step cannot be zero"))
     lo, hi = sl.start, sl.stop
@@ -561,12 +569,35 @@ def elem_cast(src, dst):
             if isinstance(v, (SBV, SU64)):
                 raise Unsupported("bit-vector element to float")
             if isinstance(v, SInt):
+                if getattr(ctx(), "float_mode", "real") == "dyadic" and dst.itemsize == 8:
+                    ctx().note("exact-dyadic regime: float64 values are tracked as num/2^k exactly; exactness (|num| < 2^53) is an obligation at np.rint")
+                    return core.SDyad(v.t, 1)
                 ctx().note(f"astype({src}->{dst}): integer values treated as exact reals (exact when |v| < 2^{24 if dst.itemsize == 4 else 53})")
                 return SReal(core.Z.ToReal(v.t))
             return float(v)
         return tofloat
     if src.kind == "f" and dst.kind == "f":
         return lambda v: v
+    if src.kind == "f" and dst.kind in "ui":
+        lo, hi = int(np.iinfo(dst).min), int(np.iinfo(dst).max)
+
+        def f2i(v):
+            if isinstance(v, core.SDyad):
+                Z = core.Z
+                c = ctx()
+                junk = c.int("ub_cast")
+                inr = Z.And(v.num > (lo - 1) * v.den, v.num < (hi + 1) * v.den)
+                return SInt(Z.If(inr, v.trunc_int(), junk.t))
+            if not isinstance(v, SReal):
+                return _native_cast(v, dst)
+            Z = core.Z
+            c = ctx()
+            c.note(f"astype({src}->{dst}, unsafe): truncation toward zero when the operand is inside the target range; arbitrary value otherwise (C undefined behaviour)")
+            t = v.t
+            tr = Z.If(t >= 0, Z.ToInt(t), -Z.ToInt(-t))
+            junk = c.int("ub_cast")
+            return SInt(Z.If(Z.And(t > lo - 1, t < hi + 1), tr, junk.t))
+        return f2i
     if src.kind == "b":
         return lambda v: ite(v, 1, 0) if isinstance(v, SBool) else int(v)
     raise Unsupported(f"astype {src} -> {dst}")
@@ -592,3 +623,7 @@ def _bv_resize(v, w):
     else:
         t = core.Z.ZeroExt(w - cur, t)
     return SU64(t) if w == 64 else SBV(t, w)
+
+
+def _native_cast(v, dst):
+    return int(np.array(v).astype(dst))
